@@ -8,6 +8,7 @@ import SqlLineage.IO.Config
 import SqlLineage.IO.Graph
 import SqlLineage.IO.Sql
 import SqlLineage.IO.PathSec
+import SqlLineage.IO.Qualify
 import SqlLineage.IO.Names
 
 open Lean
@@ -25,6 +26,8 @@ def handlers : List (String × (Json → Except String Json)) := [
   ("path", SqlLineage.IO.PathSec.handleOne),
   ("pathbatch", SqlLineage.IO.PathSec.handleBatch),
   ("pathlib", SqlLineage.IO.PathSec.handlePathlib),
+  ("sqlfx", SqlLineage.IO.Qualify.handleSqlFixed),
+  ("qualify", SqlLineage.IO.Qualify.handleQualify),
   ("ident", SqlLineage.IO.Names.handleIdent),
   ("namesBatch", SqlLineage.IO.Names.handleBatch),
   ("namesOf", SqlLineage.IO.Names.handleOf),
